@@ -596,17 +596,89 @@ rc::Gen<Case> gen_large() {
                    oplist(opg, 3, 0.08));
 }
 
+// ---------------------------------------------------------------- user-supplied equality with state
+// frequent_items_sketch takes an *instance* of the equality functor (constructor and deserialize). Items are int64 values; the instance
+// handed over treats v and v ^ 1 as the same item (a default-constructed one does not), the hash functor is consistent with both. An item
+// of the model is the class {2c, 2c+1}; every update uses either representative. All of C12's brackets are asserted per class.
+struct PairEq {
+  bool loose = false;
+  PairEq() = default;
+  explicit PairEq(bool l): loose(l) {}
+  bool operator()(int64_t a, int64_t b) const { return loose ? (a | 1) == (b | 1) : a == b; }
+};
+struct PairHash { size_t operator()(int64_t v) const { return std::hash<int64_t>()(v | 1); } };
+
+void prop_custom_equal(const Case& cs) {
+  using Sk = frequent_items_sketch<int64_t, uint64_t, PairHash, PairEq>;
+  const PairEq eq(true);
+  const int nsk = 2;
+  std::vector<Sk> sk;
+  std::vector<std::map<int64_t, uint64_t>> truth(nsk);   // class -> exact total weight
+  std::vector<uint64_t> total(nsk, 0);
+  for (int i = 0; i < nsk; ++i) { const int lg = static_cast<int>(3 + static_cast<uint64_t>(cs.get("lg" + std::to_string(i), 3)) % 5); sk.emplace_back(static_cast<uint8_t>(lg), static_cast<uint8_t>(3), eq); }
+  bool merged = false, rt = false, purged = false;
+  auto check = [&](int i, const char* when) {
+    const Sk& q = sk[i];
+    VF_CHECK(q.get_total_weight() == total[i], "total-weight", when << ": total weight " << q.get_total_weight() << " expected " << total[i]);
+    const uint64_t me = q.get_maximum_error();
+    if (me > 0) purged = true;
+    for (const auto& kv : truth[i]) for (int rep = 0; rep <= 1; ++rep) {
+      const int64_t v = 2 * kv.first + rep;
+      const uint64_t lb = q.get_lower_bound(v), ub = q.get_upper_bound(v), est = q.get_estimate(v);
+      VF_CHECK(lb <= kv.second && kv.second <= ub, "true-in-bracket", when << ": item " << v << " (the same item as " << (v ^ 1) << " under the sketch's equality instance): true weight " << kv.second << " outside [" << lb << ", " << ub << "]");
+      VF_CHECK(lb <= est && est <= ub && (ub - lb == me || (lb == 0 && ub == me)), "bracket-shape", when << ": item " << v << ": lb " << lb << " est " << est << " ub " << ub << " max error " << me);
+    }
+    // a threshold query: every class heavier than the threshold is returned once (under the sketch's equality), nothing is returned twice
+    const uint64_t thr = std::max<uint64_t>(me, total[i] / 8);
+    auto rows = q.get_frequent_items(NO_FALSE_NEGATIVES, thr);
+    std::set<int64_t> seen;
+    for (const auto& r : rows) VF_CHECK(seen.insert(r.get_item() >> 1).second, "fi-duplicate", when << ": get_frequent_items returns item " << r.get_item() << " and its equal twice");
+    for (const auto& kv : truth[i]) if (kv.second > thr) VF_CHECK(seen.count(kv.first), "fi-false-negative", when << ": item class " << 2 * kv.first << " with true weight " << kv.second << " > threshold " << thr << " is missing from NO_FALSE_NEGATIVES");
+  };
+  for (const Op& op : cs.ops) {
+    const int i = static_cast<int>(op.uarg(0) % nsk);
+    if (op.name == "upd") {
+      const int64_t cls = static_cast<int64_t>(op.uarg(1) % 40) - 5;
+      const uint64_t w = 1 + op.uarg(2) % 50;
+      sk[i].update(2 * cls + static_cast<int64_t>(op.uarg(3) & 1), w);
+      truth[i][cls] += w; total[i] += w;
+    } else if (op.name == "merge") {
+      const int j = 1 - i;
+      sk[i].merge(sk[j]);
+      for (const auto& kv : truth[j]) truth[i][kv.first] += kv.second;
+      total[i] += total[j]; merged = true;
+    } else if (op.name == "ser") {
+      if (op.uarg(1) & 1) { auto b = sk[i].serialize(); sk[i] = Sk::deserialize(b.data(), b.size(), serde<int64_t>(), eq); }
+      else { std::stringstream ss(std::ios::in | std::ios::out | std::ios::binary); sk[i].serialize(ss); sk[i] = Sk::deserialize(ss, serde<int64_t>(), eq); }
+      rt = true;
+    } else continue;
+    check(i, op.name.c_str());
+  }
+  for (int i = 0; i < nsk; ++i) check(i, "end");
+  vf::label("equality:stateful-instance");
+  if (merged) vf::label("merge");
+  if (rt) vf::label("roundtrip");
+  if (purged) { vf::label("purge"); vf::nontrivial(); }
+}
+rc::Gen<Case> gen_custom_equal() {
+  using namespace vf;
+  auto opg = choose({{12, op4("upd", range(0, 1), range(0, 39), range(0, 49), range(0, 1))}, {1, op1("merge", range(0, 1))}, {1, op2("ser", range(0, 1), range(0, 1))}});
+  return make_case({{"lg0", range(0, 4)}, {"lg1", range(0, 4)}}, oplist(opg, 6, 1.2));
+}
+
 }  // namespace
 
 int main(int argc, char** argv) {
   std::vector<vf::Sub> subs;
   subs.push_back({"main", gen_main, prop_main, 1.0});
   subs.push_back({"large", gen_large, prop_large, 0.04, 60});
+  subs.push_back({"custom_equal", gen_custom_equal, prop_custom_equal, 0.05, 100});
   return vf::main_driver(argc, argv, "C12", "c12_frequent_items",
                          "case = item type (int64/string) x weight type (uint64/int64/double) x key placement x 4 sketch slots (lg_max, lg_start) + generated "
                          "history (updates, bulk streams of 10 shapes, merges const&/rvalue/with own copy, round-trips bytes/header/stream, copies, resets); "
                          "exact counters per slot; every bound of every universe item and get_frequent_items (both error types, several thresholds) "
-                         "checked after every op; non-trivial = at least one purge happened (max error grew) AND at least one merge of a non-empty source; "
+                         "checked after every op; sub custom_equal = the same brackets for a sketch given a stateful equality INSTANCE (v and v^1 are one item); "
+                         "non-trivial = at least one purge happened (max error grew) AND at least one merge of a non-empty source; "
                          "distinct = distinct case text",
                          subs);
 }
